@@ -50,7 +50,9 @@ class Ctx:
         self.seed = seed
         self.replay = replay
         self.t0 = time.time()
-        self.work = os.path.join(VERIF, ".work", "%s-%s" % (pid, tier))
+        # one scratch dir per run (concurrent runs of the same check must not wipe each other);
+        # removed at exit unless VERIF_KEEP=1
+        self.work = os.path.join(VERIF, ".work", "%s-%s-%d" % (pid, tier, os.getpid()))
         shutil.rmtree(self.work, ignore_errors=True)
         os.makedirs(self.work, exist_ok=True)
         self.replays = os.path.join(VERIF, ".work", "replays", pid)
@@ -378,4 +380,8 @@ def main(argv):
         traceback.print_exc()
         log("INCONCLUSIVE property=%s: internal error %r" % (pid, ex))
         rc = 2
+    if os.environ.get("VERIF_KEEP") != "1":
+        shutil.rmtree(ctx.work, ignore_errors=True)
+    else:
+        log("work dir kept: " + ctx.work)
     sys.exit(rc)
